@@ -1,5 +1,5 @@
 """C19 worker (runs under python3-vt: numpy is not installed in /venv).  argv[1] = JSON {"dir":, "cases": [...]}"""
-import sys, os, json, io, warnings, pickle
+import sys, os, json, io, warnings, pickle, threading
 import numpy as np
 
 DT = {"float64": "<f8", "int32": "<i4", "big_int32": ">i4", "big_float64": ">f8", "bool": "?", "complex128": "<c16", "S3": "S3", "U3": "<U3", "V7": "V7",
@@ -172,7 +172,23 @@ def parallel_leg():
             a = make(cs["dtype"], cs["shape"], cs["layout"], 1000 + ci, d)
             thr = None if cs["delta"] is None else max(a.nbytes + cs["delta"], 0)
             want = summarize(a)
-            res = Parallel(n_jobs=2, backend=cs.get("backend", "loky"), max_nbytes=thr, mmap_mode=None if cs.get("mode") == "None" else cs.get("mode", "r"))(delayed(summarize)(x) for x in [a, a, [a][0]])
+            box = {}
+
+            def call():
+                try:
+                    box["res"] = Parallel(n_jobs=2, backend=cs.get("backend", "loky"), max_nbytes=thr, mmap_mode=None if cs.get("mode") == "None" else cs.get("mode", "r"))(
+                        delayed(summarize)(x) for x in [a, a, [a][0]])
+                except BaseException as e:
+                    box["exc"] = e
+            th = threading.Thread(target=call, daemon=True); th.start(); th.join(120)
+            if th.is_alive():
+                # (a pool worker that dies - e.g. on a truncated memory map - loses its task for good: the call never returns)
+                rec["problems"].append("the call does not return (no result after 120 s)")
+                out.append(rec)
+                out += [{"i": k, "problems": [], "skipped": True} for k in range(ci + 1, len(job["cases"]))]
+                json.dump(out, open(sys.argv[2] + ".out", "w")); os._exit(0)
+            if "exc" in box: raise box["exc"]
+            res = box["res"]
             for r in res:
                 if r[1:] != want[1:]: rec["problems"].append("worker saw %s, parent has %s" % (r[1:], want[1:]))
             rec["seen_as"] = sorted({r[0] for r in res})
